@@ -107,8 +107,15 @@ func VerifC11TimeAt() {
 		s.tempoChanges = append(s.tempoChanges, &TempoChange{AbsTicks: at, BPM: bpm})
 		ticks[i], uss[i] = at, us
 	}
-	t1 := int64(zz.U32("query"))
-	zz.Assume(t1 <= at+65535)
+	var t1 int64
+	if zz.Param("horizon") == 1 {
+		// a multi-day horizon: up to 2^34 ticks, provided they last at most three days at 120 BPM (2q ticks per second)
+		t1 = zz.I64("far-query")
+		zz.Assume(t1 >= 0 && t1 <= 1<<34 && t1 <= 518400*int64(q))
+	} else {
+		t1 = int64(zz.U32("query"))
+		zz.Assume(t1 <= at+65535)
+	}
 	got := s.TimeAt(t1)
 	got = zz.InRange(got, 0, 1<<62, "timeat:non-negative")
 
